@@ -56,18 +56,21 @@ def check(ctx: Ctx) -> str:
     ctx.rule("R2", "SandboxedEnvironment.call: raises SecurityError unless is_safe_callable(obj); only then delegates to context.call with the same object")
     sc = repo.func("sandbox:SandboxedEnvironment.call")
     rs = [r for r in astq.raises(sc.node) if astq.raise_type(r) == "SecurityError"]
-    ok = len(rs) == 1 and [(ast.unparse(g), pol) for g, pol in guards_of(rs[0])] == [("not __self.is_safe_callable(__obj)", True)]
+    safe = "__self.is_safe_callable(__obj)"
+    ok = len(rs) == 1 and [a for a in astq.guard_atoms(sc.node, rs[0]) if a[0] != "__debug__"] == [(safe, False)]
     ctx.check(ok, "call:guard", "sandbox:SandboxedEnvironment.call", "safety test", "SecurityError must be raised exactly when not is_safe_callable(__obj)", sc.loc())
     rets = astq.returns(sc.node)
     ok = len(rets) == 1 and ast.unparse(rets[0].value) == "__context.call(__obj, *args, **kwargs)"
     ctx.check(ok, "call:delegate", "sandbox:SandboxedEnvironment.call", "delegation", "the checked object (and no other) must be passed on to context.call", sc.loc())
     if rets and rs:
-        ctx.check(rs[0].lineno < rets[0].lineno, "call:order", "sandbox:SandboxedEnvironment.call", "check before call", "the safety test must precede the call", sc.loc())
+        # the call happens only on the path where the test succeeded (whichever branch is written first)
+        ctx.check((safe, True) in astq.guard_atoms(sc.node, rets[0]), "call:order", "sandbox:SandboxedEnvironment.call", "check before call", "the call must lie on the path where is_safe_callable(__obj) held", sc.loc())
 
     ctx.rule("R4", "is_safe_callable rejects objects marked unsafe_callable or alters_data")
     isc = repo.func("sandbox:SandboxedEnvironment.is_safe_callable")
     rets = astq.returns(isc.node)
-    ok = len(rets) == 1 and _formula_ok(rets[0].value)
+    # truth table of the whole function body (however it is split into ifs / returns)
+    ok = bool(rets) and _formula_ok(isc.node)  # type: ignore[arg-type]
     ctx.check(ok, "is_safe_callable", "sandbox:SandboxedEnvironment.is_safe_callable", "formula", f"is_safe_callable returns `{ast.unparse(rets[0].value) if rets else None}`: it must be false when unsafe_callable or alters_data is set", isc.loc())
     # the marks are read from the object the template is about to call - not from something
     # derived from it (an unwrapped / underlying function carries other marks)
@@ -138,6 +141,32 @@ def _formula_ok(e: ast.expr | None) -> bool:
             return u
         if t_ == "getattr(obj, 'alters_data', False)":
             return a
+        if isinstance(x, ast.Constant) and isinstance(x.value, bool):
+            return x.value
+        if isinstance(x, ast.IfExp):
+            c = ev(x.test, u, a)
+            return None if c is None else ev(x.body if c else x.orelse, u, a)
         return None
 
+    def run(body: list[ast.stmt], u: bool, a: bool) -> bool | None:
+        """Value returned by a body made of if / return statements under the valuation."""
+        for st in body:
+            if isinstance(st, ast.Expr) and isinstance(st.value, ast.Constant):
+                continue  # docstring
+            if isinstance(st, ast.Return):
+                return ev(st.value, u, a) if st.value is not None else None
+            if isinstance(st, ast.If):
+                c = ev(st.test, u, a)
+                if c is None:
+                    return None
+                r = run(st.body if c else st.orelse, u, a)
+                if r is not None or (st.body if c else st.orelse):
+                    if r is not None:
+                        return r
+                continue
+            return None
+        return None
+
+    if isinstance(e, (ast.FunctionDef, ast.AsyncFunctionDef)):
+        return all(run(e.body, u, a) == (not (u or a)) for u in (True, False) for a in (True, False))
     return all(ev(e, u, a) == (not (u or a)) for u in (True, False) for a in (True, False))
